@@ -351,6 +351,18 @@ func (c *compiler) compileParser(file ast.File) {
 	// Prepare the model for code generation.
 	c.resolver.addNonterms(source)
 	c.out.Syms = c.resolver.Syms
+	if c.out.Options.WriteBison {
+		// The Bison export spells terminals by their IDs and nonterminals by their names.
+		tokenIDs := make(map[string]string)
+		for _, sym := range c.out.Syms[:c.resolver.NumTokens] {
+			tokenIDs[sym.ID] = sym.Name
+		}
+		for _, sym := range c.out.Syms[c.resolver.NumTokens:] {
+			if tok, ok := tokenIDs[sym.Name]; ok {
+				c.Errorf(sym.Origin, "nonterminal %v is spelled like the ID of token %v, the Bison export cannot tell them apart", sym.Name, tok)
+			}
+		}
+	}
 
 	var lookahead int
 	if la, ok := p.Lookahead(); ok {
